@@ -977,6 +977,7 @@ func c19Ws(r *Run) {
 
 	c19WsRejects(r, rng)
 	c19WsConcurrentWriters(r)
+	c19WsLarge(r)
 
 	// blocked Read
 	if p, err = c19NewWsPair(); err == nil {
@@ -1480,6 +1481,7 @@ func c19HttpCtx(r *Run) {
 
 // c19Clean places the idle cleaner's tick before, during and after a delivery, under a fake clock.
 func c19Clean(r *Run) {
+	c19HttpStuckWriteTimesOut(r)
 	hooks.Reset(true)
 	defer hooks.Reset(false)
 	rng := r.Rand("c19.clean")
